@@ -147,10 +147,9 @@ def spec_incoherent(c, z, DM, ref_freq=None):
     check_dm(DM)
     g = c.view(z)
     n = g.nchan
-    if is_sym(n):
-        from pyvc.ctx import Unsupported
-        raise Unsupported("spec_incoherent needs a concrete channel count")
     ref = g.cf.val if ref_freq is None else ref_freq.val
+    if is_sym(n):
+        return _spec_incoherent_any_nchan(c, g, DM, ref)
     labels = [label(c, g, i) for i in range(n)]
     r = [V.rint_real(ctx, V.mul(delay_seconds(ctx, DM, f, ref), g.sr.val)) for f in labels]
     crop = V.simp(V.neg(V.vmin(0, V.vmin(r[0], r[-1]))))
@@ -168,7 +167,54 @@ def spec_incoherent(c, z, DM, ref_freq=None):
     return construct(c, g.cls, data, attrs)
 
 
+def _delay_lemmas(c, g, DM, ref):
+    """Ground instances, at every channel index the proof touches, of a fact about real numbers: the
+    delay K DM (f^-2 - ref^-2) is monotone in the channel index (labels increase with the index since
+    chan_bw > 0 and 1/x^2 is antitone on positive x), hence lies between the delays of the two end channels."""
+    ctx = c.ctx
+    n = g.nchan
+
+    def hook(ctx_, i, length):
+        if z3.simplify(V.Z(length) == V.Z(n)).sexpr() != "true":
+            return
+        fi, f0, fl = label(c, g, i), label(c, g, 0), label(c, g, V.sub(n, 1))
+        for a, b in ((f0, fi), (fi, fl)):
+            ctx_.assume(z3.Implies(z3.And(V.Z(a) > 0, V.Z(a) <= V.Z(b)),
+                                   V.Z(V.div(ctx_, 1, V.mul(b, b))) <= V.Z(V.div(ctx_, 1, V.mul(a, a)))),
+                        why="math-lemma: 1/x^2 antitone on positives (ground instance)")
+    ctx.index_hooks.append(hook)
+    for (i, nk) in list(ctx.fold_points):
+        hook(ctx, i, n)
+
+
+def _spec_incoherent_any_nchan(c, g, DM, ref):
+    """The same statement for a symbolic channel count: per-channel quantities are functions of the channel
+    index, the largest delay is an extremum over the index range (witness + bounds at the indices used)."""
+    ctx = c.ctx
+    n = g.nchan
+    _delay_lemmas(c, g, DM, ref)
+
+    def r_of(i):
+        return V.rint_real(ctx, V.mul(delay_seconds(ctx, DM, label(c, g, i), ref), g.sr.val))
+    r0, rl = r_of(0), r_of(V.sub(n, 1))
+    crop = V.simp(V.neg(V.vmin(0, V.vmin(r0, rl))))
+    mx = ctx.fold_extreme("max", n, r_of, tag="delay")
+    N2 = V.simp(V.vmax(0, V.sub(g.N, V.add(mx, crop))))
+    rest = tuple(g.data.shape[2:])
+    src = g.data
+
+    def elem(ix):
+        return src.elem((V.add(ix[0], V.add(r_of(ix[1]), crop)), ix[1]) + tuple(ix[2:]))
+    data = SArr((N2, n) + rest, elem, src.dtype, src.backend)
+    attrs = g.attrs()
+    if g.t0 is not None:
+        attrs["start_time"] = time_plus(c, g.t0, V.div(ctx, crop, g.sr.val))
+    return construct(c, g.cls, data, attrs)
+
+
 def incoherent_theorems(c, result, z, DM, ref_freq=None):
+    if is_sym(c.view(z).nchan):
+        return          # the per-channel theorems below enumerate the channels (concrete counts)
     """C06.a on the real result: output sample k of channel i is the input sample k + r_i + c, and
     its time stamp plus r_i/sr is the time of that input sample."""
     ctx = c.ctx
@@ -206,6 +252,13 @@ def incoherent_theorems(c, result, z, DM, ref_freq=None):
 
 def inst_incoherent():
     out = []
+    for cls, has_t0 in (("RadioSignal", True), ("IntensitySignal", False)):
+        def build(interp, ctx, nm, cls=cls, has_t0=has_t0):
+            z = mk_signal(interp, ctx, "z", cls, extra_rank=0, has_t0=has_t0, align="center", nm=nm)
+            return (z, dm_value(interp, nm)), {}
+        inst = Instance(f"{cls},nchan=any,t0={int(has_t0)},ref=none", build)
+        inst.generalisation = True
+        out.append(inst)
     for cls, extra in (("RadioSignal", 0), ("IntensitySignal", 1), ("FullStokesSignal", 0), ("BasebandSignal", 0), ("DualPolarizationSignal", 0)):
         for nchan in (1, 2, 3):
             for has_t0 in (True, False):
@@ -372,6 +425,14 @@ def inst_bb(nchans=(1, 2, 3), backends=("numpy", "dask"), with_chirp=False):
     def build(interp, ctx, nm):
         return (dm_value(interp, nm), mk_signal(interp, ctx, "z", "IntensitySignal", nm=nm)), {}
     out.append(Instance("not-baseband", build))
+    # any channel count (symbolic): the per-channel list comprehension of the code is a map over the index
+    for be in backends:
+        def build(interp, ctx, nm, be=be):
+            z = mk_signal(interp, ctx, "z", "BasebandSignal", backend=be, min_len=1, align="bottom", dtype="complex64", nm=nm)
+            return (dm_value(interp, nm), z), {}
+        inst = Instance(f"BasebandSignal,extra=0,nchan=any,{be},ref=none", build)
+        inst.generalisation = True
+        out.append(inst)
     return out
 
 
